@@ -38,6 +38,11 @@ type TxSpec struct {
 	RTag   uint64   `json:"rtag"`
 	Events int      `json:"events,omitempty"`
 	Diff   DiffSpec `json:"diff"`
+	// Kind is the transaction type (0 invoke, 1 declare, 2 l1-handler, 3 deploy-account); Reverted the
+	// receipt's execution status. Both are independent of the state diff: a reverted transaction
+	// still carries one (nonce bump, fee transfer).
+	Kind     int  `json:"kind,omitempty"`
+	Reverted bool `json:"reverted,omitempty"`
 }
 
 type UpdateSpec struct {
@@ -159,7 +164,11 @@ func txsLine(txs []TxSpec) string {
 		if t.Bad {
 			bad = 1
 		}
-		s[i] = fmt.Sprintf("%d/%d/%d/%d/%d/%d/%s", t.Hash, t.Tag, bad, t.RHash, t.RTag, t.Events, t.Diff.line())
+		rev := 0
+		if t.Reverted {
+			rev = 1
+		}
+		s[i] = fmt.Sprintf("%d/%d/%d/%d/%d/%d/%s/%d/%d", t.Hash, t.Tag, bad, t.RHash, t.RTag, t.Events, t.Diff.line(), t.Kind, rev)
 	}
 	return strings.Join(s, ";")
 }
@@ -246,17 +255,36 @@ func wireTxs(txs []TxSpec) ([]starknet.Transaction, []*starknet.TransactionRecei
 	ds := make([]*starknet.StateDiff, len(txs))
 	for i, t := range txs {
 		empty := []felt.Felt{}
-		typ := starknet.TxnInvoke
-		if t.Bad {
-			typ = starknet.TransactionType(99)
+		tx := starknet.Transaction{Hash: fe(t.Hash), Version: fe(1), CallData: &empty, Signature: &empty,
+			Nonce: fe(t.Tag), SenderAddress: fe(100)}
+		switch t.Kind {
+		case 1:
+			tx.Type, tx.ClassHash = starknet.TxnDeclare, fe(200)
+		case 2:
+			tx.Type, tx.Version = starknet.TxnL1Handler, fe(0)
+			tx.ContractAddress, tx.EntryPointSelector = fe(100), fe(9)
+		case 3:
+			tx.Type = starknet.TxnDeployAccount
+			tx.ContractAddress, tx.ContractAddressSalt, tx.ClassHash, tx.ConstructorCallData = fe(105), fe(1), fe(300), &empty
+		default:
+			tx.Type = starknet.TxnInvoke
 		}
-		ts[i] = starknet.Transaction{Hash: fe(t.Hash), Type: typ, Version: fe(1), CallData: &empty,
-			Signature: &empty, Nonce: fe(t.Tag), SenderAddress: fe(100)}
+		if t.Bad {
+			tx.Type = starknet.TransactionType(99)
+		}
+		ts[i] = tx
 		evs := make([]*starknet.Event, t.Events)
 		for j := range evs {
 			evs[j] = &starknet.Event{From: fe(100 + uint64(j)), Keys: []felt.Felt{*fe(uint64(j))}, Data: []felt.Felt{*fe(t.Hash)}}
 		}
 		rs[i] = &starknet.TransactionReceipt{TransactionHash: fe(t.RHash), ActualFee: fe(t.RTag), Events: evs}
+		if t.Reverted {
+			rs[i].ExecutionStatus = starknet.Reverted
+			rs[i].RevertError = "reverted: out of gas"
+		}
+		if t.Kind == 2 {
+			rs[i].L1ToL2Message = &starknet.L1ToL2Message{From: "0x0abc", Nonce: fe(t.Tag), Payload: []felt.Felt{}, Selector: fe(9), To: fe(100)}
+		}
 		ds[i] = t.Diff.wire()
 	}
 	return ts, rs, ds
@@ -378,11 +406,26 @@ func canonClasses(m map[felt.Felt]core.ClassDefinition) string {
 	return sortedJoin(xs)
 }
 
+// txTag renders the payload tag (the nonce) and the kind of an adapted transaction.
 func txTag(tx core.Transaction) string {
-	if inv, ok := tx.(*core.InvokeTransaction); ok {
-		return fv(inv.Nonce)
+	switch t := tx.(type) {
+	case *core.InvokeTransaction:
+		return fv(t.Nonce) + ".0"
+	case *core.DeclareTransaction:
+		return fv(t.Nonce) + ".1"
+	case *core.L1HandlerTransaction:
+		return fv(t.Nonce) + ".2"
+	case *core.DeployAccountTransaction:
+		return fv(t.Nonce) + ".3"
 	}
 	return fmt.Sprintf("?%T", tx)
+}
+
+func revTok(r *core.TransactionReceipt) int {
+	if r.Reverted {
+		return 1
+	}
+	return 0
 }
 
 func canonEntry(e *pending.PreConfirmed) string {
@@ -406,7 +449,7 @@ func canonEntry(e *pending.PreConfirmed) string {
 			rcs[i] = "nil"
 			continue
 		}
-		rcs[i] = fmt.Sprintf("%s.%s.%d", fv(r.TransactionHash), fv(r.Fee), len(r.Events))
+		rcs[i] = fmt.Sprintf("%s.%s.%d.%d", fv(r.TransactionHash), fv(r.Fee), len(r.Events), revTok(r))
 	}
 	tds := make([]string, len(e.TransactionStateDiffs))
 	for i, d := range e.TransactionStateDiffs {
